@@ -106,7 +106,8 @@ ExpScores(M, P, A, V) == [k \in DOMAIN M |-> IF IsPair(M[k]) THEN ExpScore(P[Som
 IsLat(o) == o.in.kind = "lat"
 N24(l)   == l[2] * 16777216 + l[3] * 256 + (l[4] \div 256)          \* floor of a value of [0,1] in units of 2^-24
 Num(v)   == Aff!Ret(v) /\ v.l[1] \in {0, 1} /\ v.l[2] <= 1 /\ Aff!LLeInt(v.l, 1)
-EqD(v, pq) == Aff!EqRat(v, pq)
+\* an expected value of exactly 0 (geometries that merely touch or are apart; a zero score) is demanded exactly, on any grid
+EqD(v, pq) == IF pq[1] = 0 /\ pq[2] > 0 THEN Aff!IsZero(v) ELSE Aff!EqRat(v, pq)
 ZeroD(v)   == Aff!IsZero(v)
 \* the mean of the reported numbers, on floors to 2^-24 (each floor is off by less than one unit)
 IsMeanOf(v, s) ==
